@@ -90,7 +90,7 @@ def run_case(case):
         except Exception as e:
             bad.append({"step": "reparse", "error": f"{type(e).__name__}: {e}"})
     line = None
-    if in_model:
+    if in_model and not any(s == "ERR RecursionError" for s in steps):
         stds, reprs = pool.tables()
         line = sx(["cache_run", sexps, [["read", q] for q in case["queries"]], stds, reprs, "id"])
     return {"steps": steps, "bad": bad, "known": known, "line": line, "ids": ",".join(map(str, ids)),
